@@ -449,5 +449,47 @@ m("c18-accesslist-first-address", "C18", "x/evm/types/access_list.go",
   "\t\t\tAddress:     common.HexToAddress(tuple.Address),", "\t\t\tAddress:     common.HexToAddress(al[0].Address),",
   "ToEthAccessList#tuple-address", "every unwrapped tuple carries the first tuple's address")
 
+# ---------------- C19 ----------------
+m("c19-feemarket-blockgas-not-imported", "C19", "x/feemarket/genesis.go",
+  "\tk.SetBlockGasWanted(ctx, data.BlockGas)\n", "", "x/feemarket#GenesisState.BlockGas", "exported block gas figure is dropped on import: the first base fee after import differs")
+m("c19-erc20-export-no-pairs", "C19", "x/erc20/genesis.go",
+  "\t\tTokenPairs: k.GetTokenPairs(ctx),\n", "", "x/erc20#GenesisState.TokenPairs", "token pairs are not exported")
+m("c19-liquidvesting-counter-conditional", "C19", "x/liquidvesting/genesis.go",
+  "\tk.SetDenomCounter(ctx, data.DenomCounter)\n", "\tif len(data.Denoms) > 0 {\n\t\tk.SetDenomCounter(ctx, data.DenomCounter)\n\t}\n",
+  "x/liquidvesting#import-unconditional/SetDenomCounter", "counter is lost when every liquid denom has been redeemed: denom names get reused")
+m("c19-erc20-import-no-pair-record", "C19", "x/erc20/genesis.go",
+  "\t\tk.SetTokenPair(ctx, pair)\n", "", "x/erc20#prefix/KeyPrefixTokenPair", "import rebuilds only the two indexes, not the pair records")
+m("c19-evm-export-stops-after-first", "C19", "x/evm/genesis.go",
+  "\t\tethGenAccounts = append(ethGenAccounts, genAccount)\n\t\treturn false", "\t\tethGenAccounts = append(ethGenAccounts, genAccount)\n\t\treturn true",
+  "x/evm.ExportGenesis", "account iteration stops after the first EthAccount: all other contracts lose code and storage")
+m("c19-liquidvesting-counter-from-len", "C19", "x/liquidvesting/genesis.go",
+  "\t\tDenomCounter: k.GetDenomCounter(ctx),\n", "\t\tDenomCounter: uint64(len(k.GetAllDenoms(ctx))),\n",
+  "x/liquidvesting", "exported counter = number of live denoms, lower than the stored counter after redemptions")
+m("c19-evm-import-storage-needs-code", "C19", "x/evm/genesis.go",
+  "\t\tfor _, storage := range account.Storage {\n", "\t\tif len(code) == 0 {\n\t\t\tcontinue\n\t\t}\n\t\tfor _, storage := range account.Storage {\n",
+  "x/evm", "storage of code-less accounts is exported but not restored")
+
+# ---------------- C20 ----------------
+m("c20-registercoin-registers-extensions", "C20", "x/erc20/keeper/proposals.go",
+  "\tk.SetERC20Map(ctx, common.HexToAddress(pair.Erc20Address), pair.GetID())\n\n\treturn &pair, nil",
+  "\tk.SetERC20Map(ctx, common.HexToAddress(pair.Erc20Address), pair.GetID())\n\tif err := k.RegisterERC20Extensions(ctx); err != nil {\n\t\treturn nil, err\n\t}\n\n\treturn &pair, nil",
+  "RegisterERC20Extensions#unreachable", "registering a coin extends the in-memory precompile registry at run time; a restarted node rebuilds only the static one")
+m("c20-hooks-circuit-breaker", "C20", "x/evm/keeper/keeper.go",
+  "\treturn k.hooks.PostTxProcessing(ctx, msg, receipt)\n", "\terr := k.hooks.PostTxProcessing(ctx, msg, receipt)\n\tif err != nil {\n\t\tk.hooks = nil\n\t}\n\treturn err\n",
+  "PostTxProcessing#writes-", "the first failing hook switches the hooks off for the rest of the process lifetime")
+m("c20-antehandler-only-when-loading", "C20", "app/app.go",
+  "\tapp.setAnteHandler(encodingConfig.TxConfig, maxGasWanted)\n", "\tif loadLatest {\n\t\tapp.setAnteHandler(encodingConfig.TxConfig, maxGasWanted)\n\t}\n",
+  "app.NewHaqq#setAnteHandler", "an app constructed without loadLatest (export, rollback tools, tests) runs without ante handler")
+m("c20-loadlatest-conditional", "C20", "app/app.go",
+  "\tif loadLatest {\n\t\tif err := app.LoadLatestVersion(); err != nil {", "\tif loadLatest && invCheckPeriod == 0 {\n\t\tif err := app.LoadLatestVersion(); err != nil {",
+  "app.NewHaqq#LoadLatestVersion", "with invariant checks enabled the node starts from an empty state")
+m("c20-liquidvesting-key-not-created", "C20", "app/app.go",
+  "\t\tcoinomicstypes.StoreKey,\n\t\tliquidvestingtypes.StoreKey,\n\t\tucdaotypes.StoreKey,\n\t)", "\t\tcoinomicstypes.StoreKey,\n\t\tucdaotypes.StoreKey,\n\t)",
+  "store-key-created/liquidvesting", "liquid vesting keeper is wired with a nil store key: its store is never mounted")
+m("c20-global-last-block-gas", "C20", "x/feemarket/keeper/abci.go",
+  "\tk.SetBlockGasWanted(ctx, updatedGasWanted)\n", "\tif updatedGasWanted == 0 {\n\t\tupdatedGasWanted = lastBlockGas\n\t}\n\tlastBlockGas = updatedGasWanted\n\tk.SetBlockGasWanted(ctx, updatedGasWanted)\n",
+  "EndBlock", "empty blocks reuse the last figure kept in a package-level variable: zero after a restart, non-zero on a node that kept running",
+  extra=[("// BeginBlock updates base fee\n", "var lastBlockGas uint64\n\n// BeginBlock updates base fee\n")])
+
 json.dump(M, open('/verif/mutants.json', 'w'), indent=1)
 print(len(M), "mutants written")
